@@ -364,7 +364,7 @@ std::string render_xml(const Model& m, const XmlKnobs& k, Rng& rng, std::map<std
             }
         }
         x.nl();
-        if (!t.locs.empty() || !t.init_override.empty())
+        if ((!t.locs.empty() || !t.init_override.empty()) && !t.omit_init)
             x.open("init", {{"ref", t.init_override.empty() ? t.locs[t.init].id : t.init_override}}, false, true);
         for (auto& e : t.edges) {
             x.nl();
